@@ -746,6 +746,18 @@ pub fn generate(thorough: bool, seed: u64, out: &mut dyn Write) {
     for w in mtrl_wide_cases(&mut rng, thorough) {
         writeln!(out, "{}", gen_mtrl(&mut rng, None, &w)).unwrap();
     }
+    // ---- mutated encodings (`mut <seed> <k> <case>`, Base/Mutate.lean): 1..3 damaged bytes in an
+    // encoded shader package / material; the model of the code and the code must still agree
+    let n = if thorough { 40_000 } else { 400 };
+    for i in 0..n {
+        let k = 1 + rng.below(3);
+        let seed = rng.next() >> 1;
+        if i % 2 == 0 {
+            writeln!(out, "mut {} {} {}", seed, k, gen_shpk(&mut rng, false, &ShpkWide::default())).unwrap();
+        } else {
+            writeln!(out, "mut {} {} {}", seed, k, gen_mtrl(&mut rng, None, &MtrlWide::default())).unwrap();
+        }
+    }
 }
 
 // ------------------------------------------------------------------------------------------
